@@ -50,6 +50,7 @@ class RenderContext:
         "_copy_depth",
         "loop_iteration_carry",
         "local_namespace_carry",
+        "base_globals",
         "locals",
         "counters",
         "scope",
@@ -69,9 +70,13 @@ class RenderContext:
         copy_depth: int = 0,
         loop_iteration_carry: int = 1,
         local_namespace_carry: int = 0,
+        base_globals: Mapping[str, object] | None = None,
     ) -> None:
         self.template = template
         self.globals = global_data if global_data is not None else {}
+        # Global data without anything bound by render, call or block tags. This
+        # is what isolated partials and macros get to see.
+        self.base_globals = base_globals if base_globals is not None else self.globals
         self.disabled_tags = disabled_tags or set()
         self.parent = parent
         self._copy_depth = copy_depth
@@ -384,6 +389,7 @@ class RenderContext:
                 parent=self,
                 loop_iteration_carry=loop_iteration_carry,
                 local_namespace_carry=self.get_size_of_locals(),
+                base_globals=self.base_globals,
             )
             # This might need to be generalized so the caller can specify which
             # tag namespaces need to be copied.
@@ -391,12 +397,13 @@ class RenderContext:
         else:
             ctx = self.__class__(
                 template or self.template,
-                global_data=ReadOnlyChainMap(namespace, self.globals),
+                global_data=ReadOnlyChainMap(namespace, self.base_globals),
                 disabled_tags=disabled_tags,
                 copy_depth=self._copy_depth + 1,
                 parent=self,
                 loop_iteration_carry=loop_iteration_carry,
                 local_namespace_carry=self.get_size_of_locals(),
+                base_globals=self.base_globals,
             )
 
         ctx.template = template or self.template
